@@ -1947,6 +1947,11 @@ func (m *repoManager) merge(parents []dvid.UUID, note string, mt MergeType) (dvi
 		if !locked {
 			return dvid.NilUUID, ErrBranchUnlockedNode
 		}
+		for j := 0; j < i; j++ {
+			if parentVs[j] == v {
+				return dvid.NilUUID, fmt.Errorf("parent %s is listed more than once in merge", parent)
+			}
+		}
 		parentVs[i] = v
 		parentNodes[i] = node
 	}
